@@ -830,6 +830,11 @@ def execute_spec(spec):
     out_spec.pop('lenient', None)
     nontrivial = between > 0 or displaced > 0 or (multi and cfg.get('policy') == 'sequential')
     sample = None
+    if between > 0 and displaced > 0 and 6 <= len(sched_out) <= 30 and not violations:
+        # a compact executed run, written out for the evidence file
+        sample = dict(files=fnames, tasks=spec['tasks'], schedule=sched_out, cfg=cfg,
+                      steps_compared_with_solo_reference=len([l for l in log if isinstance(l[0], int)]),
+                      steps_between_two_steps_of_another_multi_step_op=between)
     return dict(spec=out_spec, violations=violations, digest=pdigest(log), nontrivial=nontrivial,
                 nt_digest=pdigest(fnames, sched_out, spec['tasks']), evaluations=1, sim_time=ctx.clock.seq,
                 faults={'cursor_displacement': [displaced, displaced], 'iterator_abandon': [abandoned, abandoned],
@@ -1085,8 +1090,8 @@ def extra_coverage(prop, tier, agg):
         if k.startswith('pair:') or k.startswith('state:'):
             del agg['probes'][k]
     s = gen_spec(prop, tier, 0, len(_ST['prep_cross']))
-    s = dict(s, tasks=[t[:4] for t in s['tasks']])
-    return dict(samples=[s], files_used=len(_ST['names']), files_skipped=_ST['skipped_files'],
+    s = dict(s, tasks=[t[:4] for t in s['tasks']], note='generated spec of the first random run (schedule decided at run time)')
+    return dict(samples=agg['samples'][:3] + [s], files_used=len(_ST['names']), files_skipped=_ST['skipped_files'],
                 pooled_ops=sum(len(_ST['files'][n]['pool']) for n in _ST['names']),
                 op_kinds_applicable=sorted(kinds),
                 interleaving_measure=dict(distinct_schedules=len(agg['nontrivial']),
